@@ -76,6 +76,9 @@ META = dict(
 META["rule"] += (
     " " + "Added after the second round of seeded changes: station coordinates on a 0.01 lattice (not representable in float32) with window bounds placed on the caller's coordinates, bounds given as float / np.float64 / np.float32 / int (inside-ness is decided at the precision of the stored float32 coordinates); observables also int16/int32/int64 and float32 (tolerance 64 eps32 for float32 fields).")
 
+META["rule"] += (
+    " " + 'Added after the third round: `shuffled_anomaly()` requested before and after `anomaly()` (column-permutation relation); 40 % of the window changes reuse one dict object edited in place; phase / month lists in random order.')
+
 KEYS = ("time_min", "time_max", "lat_min", "lat_max", "lon_min", "lon_max")
 
 
